@@ -11,7 +11,7 @@ RULE = ("event histories (length 1-8: open, change, create, rename, delete, conf
         "jsonrpc2 pipe) is driven with them; at quiescence (both job queues empty, no publishDiagnostics for 1.8 s, twice, after a 1.2 s settle) the "
         "last published diagnostics per file are compared with those of a fresh server started on the same final contents. "
         "non-trivial = the history changes some file's diagnostics; distinct = distinct (workspace, history)"
-        ' Also: directed aggregate updates under a sparse-collector configuration, change->delete and open->delete->relint bursts, layout-only edits, renames out of the linted set; the cache invariant of the LspCache model read from the real server at quiescence.')
+        ' Also: directed aggregate updates under a sparse-collector configuration, change->delete and open->delete->relint bursts, layout-only edits, renames out of the linted set; the cache invariant of the LspCache model read from the real server at quiescence. Every fourth history is delivered one event at a time (2.5 s apart, the server idle in between); edits back to the first text of a file and re-creations of a deleted file with its old contents are generated; directed: importer unparseable while the imported package is renamed, delete and re-create of an imported file.')
 TRUSTED = ["sourcegraph/jsonrpc2 dispatch; fsnotify for config changes; idleness is detected by polling (generous deadlines)"]
 ASSUMPTIONS = ["worker steps are atomic in the Lean model; finer interleavings are only sampled by the free-running harness"]
 
@@ -75,6 +75,7 @@ def gen_history(rng, k):
     events = []
     burst = rng.random() < 0.35
     live = list(names)
+    gone = []
     created = 0
     for _ in range(rng.randint(1, 8)):
         r = rng.random()
@@ -86,11 +87,18 @@ def gen_history(rng, k):
             i = int(re.search(r"f(\d+)", f.split("/")[-1]).group(1))    # p3/f3.rego, ignored/f3.rego, p3/f3_r.rego.bak
             imps = [j for j in range(n + 1) if j != i and rng.random() < 0.4]
             t = content(i, imps, rng.choice([0, 1, 2, 3]))
+            if f in files and rng.random() < 0.15:
+                t = files[f]      # back to the text the file started with (its aggregate data is what it was before)
             events.append({"kind": "change", "file": f, "text": t, "pauseMs": pause})
             if rng.random() < 0.35 and not is_broken(t):
                 # followed by an edit that only moves the code (blank / comment lines): diagnostics must move with it
                 events.append({"kind": "change", "file": f, "text": relayout(rng, t), "pauseMs": rng.choice([0, 150, 600])})
         elif r < 0.68:
+            if gone and rng.random() < 0.4:
+                f = gone.pop()    # a deleted file comes back under its old name with its old contents
+                events.append({"kind": "create", "file": f, "text": files[f], "pauseMs": pause})
+                live.append(f)
+                continue
             i = n + created
             created += 1
             f = "p%d/f%d.rego" % (i, i)
@@ -99,6 +107,8 @@ def gen_history(rng, k):
         elif r < 0.82 and len(live) > 2:
             f = rng.choice(live)
             live.remove(f)
+            if f in files:
+                gone.append(f)
             events.append({"kind": "delete", "file": f, "pauseMs": pause})
         elif r < 0.92 and live:
             f = rng.choice(live)
@@ -110,6 +120,9 @@ def gen_history(rng, k):
                 events.append({"kind": "rename", "file": f, "to": to, "pauseMs": pause})
         else:
             events.append({"kind": "config", "text": rng.choice([CFG, CFG2, CFG, CFG2, CFG, CFG2, CFG3]), "pauseMs": max(pause, 300)})
+    if k % 4 == 3:
+        # "delivered one at a time": every event is sent after the server has worked off the previous one
+        events = [dict(e, pauseMs=2500) for e in events]
     return {"id": k, "op": "lsp.history", "files": files, "events": events}
 
 
@@ -223,6 +236,20 @@ def run(ctx):
                  ".regal/config.yaml": CFG}
         cases.append({"id": len(cases), "op": "lsp.history", "files": files, "_strict": True,
                       "events": [{"kind": "change", "file": "p1/f1.rego", "text": content(1, [], 3), "pauseMs": 700}, ev]})
+    # directed: the aggregate report must be re-run after a file job even when that file's own aggregate data is what it
+    # was before: (1) the importer is unparseable while the imported package is renamed, then restored to its old text;
+    # (2) an imported file is deleted and re-created with the same contents
+    for rep in range(1 if ctx.quick else 4):
+        files = {"p0/f0.rego": content(0, [1], 0), "p1/f1.rego": content(1, [], 0), "p2/f2.rego": content(2, [0], 0),
+                 ".regal/config.yaml": CFG}
+        cases.append({"id": len(cases), "op": "lsp.history", "files": files, "_strict": True, "events": [
+            {"kind": "change", "file": "p0/f0.rego", "text": content(0, [1], 3), "pauseMs": 2500},
+            {"kind": "change", "file": "p1/f1.rego", "text": content(5, [], 0), "pauseMs": 3000},
+            {"kind": "change", "file": "p0/f0.rego", "text": content(0, [1], 0), "pauseMs": 700}]})
+        cases.append({"id": len(cases), "op": "lsp.history", "files": files, "_strict": True, "events": [
+            {"kind": "open", "file": "p1/f1.rego", "pauseMs": 2500},
+            {"kind": "delete", "file": "p1/f1.rego", "pauseMs": 3000},
+            {"kind": "create", "file": "p1/f1.rego", "text": content(1, [], 0), "pauseMs": 700}]})
     # directed: plain starts on a workspace that already has a file in the ignored directory (the workspace is linted
     # with the default configuration before the user's config is loaded)
     for rep in range(6 if ctx.quick else 24):
